@@ -2,11 +2,14 @@ import WuffsVerif.Common.Line
 import WuffsVerif.Model.WSem
 import WuffsVerif.Model.CExpr
 import WuffsVerif.Model.Iterate
+import WuffsVerif.Model.CStmtAst
 /-! Line driver for C04.  Stateful ops:
 
   case <id> <serialised typed AST of one struct + its methods>   -> init ok | bad-program
   call <method> [<arg>=<int>]*                                    -> r <ret> | <field values>
                                                                      (or `undef:…` / `unsupported:…`)
+  skel <method>      -> control skeleton of the C body that the modelled statement lowering
+                        (Model/CStmt.lean lowerL, subject of Props/C04Stmt.lean) writes for the method
 Stateless ops of the shape check (canonical prefix form of the C that `lower…` yields;
 an operand kind is `v` (no ConstValue) or `c<value>`):
   lower <Bop> <ty> <lk> <rk>        lowerun <Uop>        lowerassoc <Aop> <ty> <n>
@@ -102,6 +105,13 @@ def c04Step (d : DSt) (l : List String) : DSt × String :=
     match (parseTree toks).bind loadProg with
     | some p => ({ prog := some p, st := initSt p }, "init ok")
     | none => ({}, "bad-program")
+  | ["skel", m] =>
+    match d.prog with
+    | none => (d, "bad-op")
+    | some p =>
+      match p.funcs.find? (fun f => f.name == m) with
+      | some f => (d, WuffsVerif.CStmt.skeletonOf f.body f.out.isSome)
+      | none => (d, "bad-op")
   | "call" :: m :: args =>
     match d.prog with
     | none => (d, "bad-op")
